@@ -953,3 +953,87 @@ Section PermProofs.
     rewrite (marshal_perm k c l sj a _ _ N P). repeat split; auto.
   Qed.
 End PermProofs.
+
+(* ------------------------------------------------------------------ *)
+(* 8. histories: every sequence of calls on one target                 *)
+(* ------------------------------------------------------------------ *)
+Section HistoryProofs.
+  Variable marshal : manifest -> str.
+  Variable H : str -> str.
+  Hypothesis H_empty : H empty_json = empty_json_digest.
+
+  (* a whole history only adds content-consistent entries *)
+  Lemma run_calls_steps tc fa cs : forall s s' rs,
+    run_calls marshal H tc fa s cs = (s', rs) ->
+    exists evs, steps s s' evs /\ Forall (consistent_ev H) evs.
+  Proof.
+    induction cs as [|c cs IH]; intros s s' rs R; simpl in R.
+    - injection R as <- <-. exists []. split; [apply steps_refl | constructor].
+    - destruct (pack marshal H (c_fn c) tc fa s (c_at c) (c_opts c) (c_now c)) as [s1 r1] eqn:P.
+      destruct (run_calls marshal H tc fa s1 cs) as [s2 rs2] eqn:R2. injection R as <- <-.
+      destruct (pack_pushes_consistent marshal H H_empty _ _ _ _ _ _ _ _ _ P) as (e1 & S1 & C1).
+      destruct (IH _ _ _ R2) as (e2 & S2 & C2).
+      exists (e1 ++ e2). split; [eapply steps_trans; eauto | apply Forall_app; auto].
+  Qed.
+
+  Theorem history_preserves_wf tc fa cs s s' rs :
+    run_calls marshal H tc fa s cs = (s', rs) -> wf_store H (s_store s) -> wf_store H (s_store s').
+  Proof.
+    intros R W. destruct (run_calls_steps _ _ _ _ _ _ R) as (evs & S & C). eapply steps_wf; eauto.
+  Qed.
+
+  (* what an earlier call returned is still there after any later calls (failed ones included):
+     its descriptor answers Exists, and under it lies content with the digest of its manifest --
+     for a collision-free digest, exactly the marshalled manifest *)
+  Theorem history_results_stay tc fa cs : forall s s' rs d m,
+    wf_store H (s_store s) ->
+    run_calls marshal H tc fa s cs = (s', rs) ->
+    In (Ok d m) rs ->
+    stored (t_key tc) (s_store s') d = true /\
+    d_dg d = H (marshal m) /\
+    exists e, In e (s_store s') /\ same_key (t_key tc) d e = true /\ H (e_bytes e) = H (marshal m) /\
+              ((forall x y, H x = H y -> x = y) -> e_bytes e = marshal m).
+  Proof.
+    induction cs as [|c cs IH]; intros s s' rs d m W R I; simpl in R.
+    - injection R as <- <-. contradiction.
+    - destruct (pack marshal H (c_fn c) tc fa s (c_at c) (c_opts c) (c_now c)) as [s1 r1] eqn:P.
+      destruct (run_calls marshal H tc fa s1 cs) as [s2 rs2] eqn:R2. injection R as <- <-.
+      pose proof (pack_preserves_wf marshal H H_empty _ _ _ _ _ _ _ _ _ P W) as W1.
+      destruct I as [-> | I]; [|eapply IH; eauto].
+      pose proof (history_preserves_wf _ _ _ _ _ _ R2 W1) as W2.
+      destruct (run_calls_steps _ _ _ _ _ _ R2) as (evs & S2 & _).
+      apply (ok_consistent marshal H H_empty) in P as (ann & e1 & _ & -> & -> & _ & _ & St & _).
+      pose proof (stored_steps _ _ _ _ _ S2 St) as St2. split; [exact St2|]. split; [reflexivity|].
+      destruct (stored_In _ _ _ St2) as (e & In' & K). exists e. split; auto. split; auto.
+      unfold wf_store in W2. rewrite Forall_forall in W2. destruct (W2 _ In') as (D1 & _).
+      pose proof (same_key_dg _ _ _ K) as D. simpl in D.
+      assert (HE : H (e_bytes e) = H (marshal (requested_manifest H (c_fn c) (c_at c) (c_opts c) ann))) by congruence.
+      split; auto.
+  Qed.
+
+  (* "so the result can be copied": when the descriptors the caller supplied are in the target, the
+     packed manifest and all its successors are -- the source-closed hypothesis of the copy theorems
+     (C01) holds one level down from the new root, the rest is the caller's graph *)
+  Theorem ok_closed_when_supplied_present f tc fa s at_ o now s' d m :
+    Forall (fun x => stored (t_key tc) (s_store s) x = true) (supplied o) ->
+    pack marshal H f tc fa s at_ o now = (s', Ok d m) ->
+    stored (t_key tc) (s_store s') d = true /\
+    Forall (fun x => stored (t_key tc) (s_store s') x = true) (successors m).
+  Proof.
+    intros Sup P. pose proof (ok_closed marshal H H_empty _ _ _ _ _ _ _ _ _ _ P) as C.
+    destruct (ok_consistent marshal H H_empty _ _ _ _ _ _ _ _ _ _ P) as (ann & evs & _ & _ & _ & S & _ & St & _).
+    split; [exact St|]. apply Forall_forall. intros x Ix. destruct (C x Ix) as [I | I]; auto.
+    rewrite Forall_forall in Sup. eapply stored_steps; eauto.
+  Qed.
+
+  (* the number of results is the number of calls: every call ends (no call is lost or repeated) *)
+  Lemma run_calls_length tc fa cs : forall s s' rs,
+    run_calls marshal H tc fa s cs = (s', rs) -> length rs = length cs.
+  Proof.
+    induction cs as [|c cs IH]; intros s s' rs R; simpl in R.
+    - now injection R as <- <-.
+    - destruct (pack marshal H (c_fn c) tc fa s (c_at c) (c_opts c) (c_now c)) as [s1 r1].
+      destruct (run_calls marshal H tc fa s1 cs) as [s2 rs2] eqn:R2. injection R as <- <-.
+      simpl. f_equal. eapply IH; eauto.
+  Qed.
+End HistoryProofs.
